@@ -2,6 +2,8 @@
 
 package pool
 
+import "net/http"
+
 // Verification hooks (build tag "verif"): read-only accessors and a health-state setter
 // used by the /verif correspondence harness. Not compiled into normal builds.
 
@@ -38,4 +40,18 @@ func (p *PeerPool) VerifPeerNodes() []string {
 	p.mu.RLock()
 	defer p.mu.RUnlock()
 	return append([]string(nil), p.peerNodes...)
+}
+
+// VerifSetHTTPClient replaces the client used to forward requests to peers (the harness routes
+// requests to in-process peer handlers by host name).
+func (p *PeerPool) VerifSetHTTPClient(c *http.Client) {
+	p.httpClient = c
+}
+
+// VerifLocalHolds reports whether this node's local pool holds an allocation for the subscriber.
+func (p *PeerPool) VerifLocalHolds(subscriberID string) bool {
+	p.localPool.mu.Lock()
+	defer p.localPool.mu.Unlock()
+	_, ok := p.localPool.allocations[subscriberID]
+	return ok
 }
